@@ -129,7 +129,7 @@ class Focused(Part):
     """every single preemption at a source line inside the channel close/receive machinery, x every alternative thread"""
 
     name = "focused"
-    budget = {"quick": 16, "thorough": 800}
+    budget = {"quick": 16, "thorough": 240}
     min_per_shard = 1
 
     def setup(self, ctx):
